@@ -31,7 +31,7 @@ EXPLANATION = (
 )
 
 MANIFEST = {
-    "technique": "static analysis: abstract interpretation over canonical terms (child-index algebra; release, seeding and early-return conditions as path conditions compared by truth table); exhaustive evaluation of extracted terms over small finite domains (16 child-liveness patterns, readiness-key collision search over levels 0-4, (depth, apex) grid for closed-form seeding); CFG path queries on dispatcher/worker loops; state-escape (stateless walk) check",
+    "technique": "static analysis: abstract interpretation over canonical terms (child-index algebra; release, seeding and early-return conditions as path conditions compared by truth table); exhaustive evaluation of extracted terms over small finite domains (16 child-liveness patterns, readiness-key collision search over levels 0-4, (depth, apex) grid for closed-form seeding); CFG path queries on dispatcher/worker loops; state-escape (stateless walk) check; class-level containers filled through self (shared by all instances); sub-pyramid offset map compared slot by slot (shared with C13)",
     "text": "Decides the structural premises R1-R9 of the ready/done queue protocol and of the serial post-order reduction; with the written induction they give exactly-once, children-before-parent and termination for all schedules and filters.",
     "note": "Trusted: multiprocessing.Queue FIFO/exactly-once contract; Python int/bit semantics. Not decided: the reduction iterator's level bookkeeping (_ensure_levels/pop) for arbitrary filter shapes (guarded by its own asserts).",
 }
